@@ -51,7 +51,7 @@ def gen_peer(rng, slot):
     return {"slot": slot, "ids": (ru, rg, eu, eg), "raw": raw, "dec": dec, "beh": beh}
 
 
-def gen_case(rng, npeers=None):
+def gen_case(rng, npeers=None, inject=False):
     npeers = npeers or rng.choice([1, 2, 3, 4, 6, 8])
     ops = ["svc %s %s" % (rng.choice(["shm", "sock"]), rng.choice(UMASKS))]
     peers = [gen_peer(rng, s) for s in range(npeers)]
@@ -88,6 +88,11 @@ def gen_case(rng, npeers=None):
                     continue
                 ops += ["req %d" % p["slot"]] * rng.choice([1, 1, 2, 3])
                 ops.append("t %d" % p["slot"] if (p["dec"] == 0 or rng.random() < 0.5) else "tall")
+            elif r < 0.6 and inject:
+                # any local process - here a raw client, typically a refused one - writes to another connection
+                frm = [q for q in live if q["raw"] and q is not p]
+                if frm and p["dec"] == 0:
+                    ops += ["inject %d %d" % (rng.choice(frm)["slot"], p["slot"]), "t %d" % p["slot"]]
             elif r < 0.8:
                 ops += ["kill %d" % p["slot"], "t %d" % p["slot"]]
             else:
@@ -99,8 +104,15 @@ def gen_case(rng, npeers=None):
     return ops
 
 
-def corpus():
+INJECT_WITNESS = ["svc sock 22", "beh 0", "beh -13", "start 0 1000 1000 1000 1000", "start 1 65534 65534 65534 65534 raw",
+                  "acc", "acc", "auth 0", "auth 1", "fin 0", "fin 1", "inject 1 0", "t 0", "kill 0", "t 0", "end"]
+
+
+def corpus(inject=False):
     out = []
+    if inject:
+        out.append(INJECT_WITNESS)
+        out.append([x.replace("svc sock", "svc shm") for x in INJECT_WITNESS])
     for tr in ("shm", "sock"):
         for um in ("22", "77", "0"):
             S = ["svc %s %s" % (tr, um)]
@@ -189,6 +201,7 @@ def monitor(lines, crash):
     chan = 0
     tr = None
     last_op = None
+    foreign, own = {}, {}      # per connection: requests queued by other processes / by its own peer
     for i, l in enumerate(lines):
         w = l.split()
         if l.startswith("op "):
@@ -196,6 +209,7 @@ def monitor(lines, crash):
             if w[1] == "svc":
                 tr = w[2]
                 behs, slots, conn, chan = [], {}, {}, 0
+                foreign, own = {}, {}
             elif w[1] == "beh":
                 a = None
                 if len(w) == 6:
@@ -206,6 +220,17 @@ def monitor(lines, crash):
                                     "ord": None}
             elif w[1] in ("auth", "t", "fin", "req", "kill"):
                 cur_slot = int(w[2])
+            continue
+        if l.startswith("injected ") and w[2] == "ok" and last_op and last_op[0] == "inject":
+            frm, vic = slots.get(int(last_op[1])), slots.get(int(last_op[2]))
+            if vic and vic["ord"] is not None:
+                # requests that are not the victim peer's own are now queued at its connection
+                foreign[vic["ord"]] = foreign.get(vic["ord"], 0) + 1
+            continue
+        if l.startswith("sent ") and w[2] == "ok":
+            sl = slots.get(int(w[1]))
+            if sl and sl["ord"] is not None and not sl["raw"]:
+                own[sl["ord"]] = own.get(sl["ord"], 0) + 1
             continue
         if l.startswith("srv "):
             srv = (int(w[1]), int(w[2]))
@@ -234,6 +259,16 @@ def monitor(lines, crash):
             c = conn.get(k)
             if c is None or not c["cb"] or c["dec"] != 0:
                 bad.append((None, "line %d: %s for a connection that was not accepted" % (i, l)))
+            elif l.startswith("cb msg"):
+                if own.get(k, 0) > 0:
+                    own[k] -= 1
+                elif foreign.get(k, 0) > 0:
+                    foreign[k] -= 1
+                    bad.append(("C05-sock-dgram-injection", "line %d: msg_process of connection %d invoked for a request "
+                                "sent by a process that is not its peer (datagram to the connection's abstract request "
+                                "address)" % (i, k)))
+                else:
+                    bad.append((None, "line %d: msg_process of connection %d invoked although its peer sent nothing" % (i, k)))
         elif l.startswith("chan "):
             n = int(w[1])
             if last_op and last_op[0] == "auth":
